@@ -42,6 +42,9 @@ pub struct SchedSpec {
     pub actor_weights: Vec<u64>,
     /// after this many decisions the canonical fair fault-free tail takes over
     pub fault_stop: u64,
+    /// percent chance per decision of an observer request issued mid-run (Decision::N)
+    #[serde(default)]
+    pub observer_pct: u64,
 }
 
 impl SchedSpec {
@@ -56,6 +59,7 @@ impl SchedSpec {
             idle_weight: 0,
             actor_weights: vec![],
             fault_stop: 0,
+            observer_pct: 0,
         }
     }
 
@@ -82,6 +86,7 @@ impl SchedSpec {
             idle_weight: *rng.pick(&[0u64, 2, 10]),
             actor_weights,
             fault_stop: est_len / 2 + rng.below(est_len * 3 + 1),
+            observer_pct: *rng.pick(&[0u64, 0, 0, 2, 8]),
         }
     }
 }
@@ -258,6 +263,9 @@ impl Scheduler {
                 return Next::Do(Decision::J { back: 1 + self.rng.below(self.spec.max_dt * 4) });
             }
             return Next::Do(Decision::T { dt: 1 + self.rng.below(self.spec.max_dt) });
+        }
+        if self.spec.observer_pct > 0 && self.rng.below(100) < self.spec.observer_pct {
+            return Next::Do(Decision::N { k: self.rng.below(1 << 20) });
         }
         let kind = self.spec.kind.clone();
         let stalled = |a: Actor, n: u64| -> bool {
